@@ -69,6 +69,15 @@ def check(run):
         specs = pair_specs(rng, la, lb)
         one_case(run, specs, "momentum")
         one_case(run, specs, "angmom")
+    k = 0
+    for la, lb in itertools.product(range(5), repeat=2):      # tail regime (premature screening would bite here)
+        if run.tier == "quick" and (la + lb) % 2 == 0:
+            continue
+        s1, s2 = tail_pair(rng, la, lb, TAIL_LADDER[k % len(TAIL_LADDER)])
+        one_case(run, [s1, s2], "momentum")
+        one_case(run, [s2, s1], "angmom")
+        run.count("tail regime")
+        k += 1
     for _ in range(3 if run.tier == "quick" else 20):
         specs = random_basis(rng, 1, 3, lmax=3)
         t = random_transform(rng, sum(x.size for x in specs))
